@@ -3286,7 +3286,10 @@ class Parameters:
             value = self_or_cls.param.get_value_generator(name)
             if name == 'name' and onlychanged and _is_auto_name(self_.cls.__name__, value):
                 continue
-            if not onlychanged or not Comparator.is_equal(value, val.default):
+            # An instance named exactly like its class was named explicitly
+            # (a new instance would get an auto-generated name instead)
+            explicit_name = name == 'name' and self_.self is not None and value is not None
+            if not onlychanged or explicit_name or not Comparator.is_equal(value, val.default):
                 vals.append((name, value))
 
         vals.sort(key=itemgetter(0))
